@@ -4,6 +4,7 @@ import (
 	"bytes"
 	"fmt"
 	"net"
+	"time"
 
 	"verif/vsim/env"
 	"verif/vsim/gnss"
@@ -84,8 +85,26 @@ func C19(h ProxyHooks) func(*hx.Ctx) *hx.Outcome {
 		s.SetStarveKey([]string{"proxy-parser", "proxy-queue-updater", "tcpprox.go", "ntrip-client", "caster"}[t.D(5)])
 		s.Budget = 60*(len(up)+len(down)+64) + 40000
 		// proxy side conns and their peers
-		clientPeer, proxyClient := env.Pipe(t, "ntrip-client", "proxy-client-side")
-		casterPeer, proxyServer := env.Pipe(t, "caster", "proxy-server-side")
+		// bounded TCP buffers (a write blocks while the peer does not read) and
+		// peers that stall for a while in simulated time
+		bufCap := []int{0, 0, 16, 256, 4096}[t.S(5)]
+		casterStall := []time.Duration{0, 0, 0, 200 * time.Millisecond, 7 * time.Second, 3 * time.Minute}[t.S(6)]
+		clientStall := []time.Duration{0, 0, 0, 200 * time.Millisecond, 7 * time.Second, 3 * time.Minute}[t.S(6)]
+		if bufCap > 0 {
+			o.Fault("tcp:bounded-buffers")
+		}
+		if casterStall > 0 {
+			o.Fault("caster:stalls")
+		}
+		if clientStall > 0 {
+			o.Fault("client:stalls")
+		}
+		if c.Detail {
+			sm := o.Sample.(map[string]any)
+			sm["tcp_buffer"], sm["caster_stall"], sm["client_stall"] = bufCap, casterStall.String(), clientStall.String()
+		}
+		clientPeer, proxyClient := env.PipeCap(t, "ntrip-client", "proxy-client-side", bufCap)
+		casterPeer, proxyServer := env.PipeCap(t, "caster", "proxy-server-side", bufCap)
 		for _, cn := range []*env.Conn{clientPeer, proxyClient, casterPeer, proxyServer} {
 			cn.MaxChunk = maxChunk
 		}
@@ -105,7 +124,11 @@ func C19(h ProxyHooks) func(*hx.Ctx) *hx.Outcome {
 		verdict := s.Run(func() {
 			h.Setup(c.TempDir())
 			empty = angle(h.EmptyStatus())
-			rt.Go("ntrip-client", func() {
+			// each peer reads and writes concurrently, as a TCP application must
+			// (two peers that both write everything before reading deadlock on
+			// bounded buffers whatever sits between them)
+			upDone := make(chan struct{})
+			rt.Go("ntrip-client-writer", func() {
 				rest := up
 				for len(rest) > 0 {
 					n := 1 + t.D(len(rest))
@@ -115,27 +138,50 @@ func C19(h ProxyHooks) func(*hx.Ctx) *hx.Outcome {
 					clientPeer.Write(rest[:n])
 					rest = rest[n:]
 				}
-				// receive everything the caster sends, then hang up
+				rt.Yield("client writer done")
+				close(upDone)
+				rt.Yield("client writer closed upDone")
+			})
+			rt.Go("ntrip-client-reader", func() {
+				// receive everything the caster sends, then (once everything was sent) hang up
 				buf := make([]byte, 4096)
+				if clientStall > 0 {
+					time.Sleep(clientStall)
+					rt.Yield("client stalled")
+				}
 				for len(clientPeer.ReadBuf) < len(down) {
 					if _, err := clientPeer.Read(buf); err != nil {
 						break
 					}
 				}
+				rt.Yield("client reader waits for writer")
+				<-upDone
+				rt.Yield("client reader: writer done")
 				clientPeer.Close()
 			})
-			rt.Go("caster", func() {
+			rt.Go("caster-writer", func() {
 				rest := down
-				buf := make([]byte, 4096)
 				for len(rest) > 0 {
 					n := 1 + t.D(len(rest))
 					if n > maxChunk {
 						n = 1 + t.D(maxChunk)
 					}
-					casterPeer.Write(rest[:n])
+					if _, err := casterPeer.Write(rest[:n]); err != nil {
+						return
+					}
 					rest = rest[n:]
 				}
+			})
+			rt.Go("caster-reader", func() {
+				buf := make([]byte, 4096)
+				stalled := false
 				for {
+					if casterStall > 0 && !stalled && len(casterPeer.ReadBuf) >= len(up)/3 {
+						// the caster stops reading for a while but stays connected
+						stalled = true
+						time.Sleep(casterStall)
+						rt.Yield("caster stalled")
+					}
 					if _, err := casterPeer.Read(buf); err != nil {
 						return
 					}
@@ -158,6 +204,8 @@ func C19(h ProxyHooks) func(*hx.Ctx) *hx.Outcome {
 		o.Verdict, o.Strategy = verdict, rt.StratNames[s.Strategy]
 		o.ProbeN("status-requests", statusCalls)
 		o.ProbeN("lock-contention-observed", s.LockContention)
+		o.ProbeN("proxy-write-blocked-on-full-buffer", proxyServer.WriteBlocked+proxyClient.WriteBlocked)
+		o.SimTime = s.Elapsed()
 		if len(s.Panics) > 0 {
 			o.Fail("C19/panic", "%s", firstLine(s.Panics[0]))
 			return o
